@@ -414,6 +414,19 @@ class Evaluator:
             return base.args[0] if attr == "tag" else base.args[1]
         if isinstance(base, Const):
             return App("cmeth", (base, Const(attr)), node)
+        # dataclass instances created in this evaluation: fields come from the constructor arguments
+        if isinstance(base, App) and base.op == "new" and isinstance(base.args[0], Ref) and base.args[0].kind == "class" \
+                and "dataclass" in base.args[0].obj.decorators:
+            dc = base.args[0].obj
+            fields = [n.target.id for n in dc.node.body if isinstance(n, ast.AnnAssign) and isinstance(n.target, ast.Name)]
+            if attr in fields:
+                pos = [a for a in base.args[2:] if not (isinstance(a, App) and a.op == "kw")]
+                for a in base.args[2:]:
+                    if isinstance(a, App) and a.op == "kw" and a.args[0] == Const(attr):
+                        return a.args[1]
+                i = fields.index(attr)
+                if i < len(pos):
+                    return pos[i]
         # instance of a repository class: self / new objects
         ci = self.class_of_instance(base, fr)
         if ci is not None:
@@ -1146,10 +1159,10 @@ class Evaluator:
         if fa is None and fb is None:
             return None, exits
         if fa is None:
-            fb.effects.append(App("eff:assume", (App("not", (g,), s.test),), s))
+            fb.effects.insert(base_e, App("eff:assume", (App("not", (g,), s.test),), s))
             return fb, exits
         if fb is None:
-            fa.effects.append(App("eff:assume", (g,), s))
+            fa.effects.insert(base_e, App("eff:assume", (g,), s))
             return fa, exits
         # merge
         merged = State(conds=st.conds)
